@@ -801,6 +801,16 @@ fn main() {
         add(&mut scenarios, "r", m, plans);
     }
 
+    // 3b. many handlers in flight at once: 280 clients that stay, then 40 that leave while
+    //     their handler waits (the promise of the task mode does not depend on the load)
+    for &m in &modes {
+        let mut plans: Vec<Plan> = (0..280).map(|_| Plan::Stay).collect();
+        for i in 0..40 {
+            plans.push(Plan::Waiting(How::ALL[i % How::ALL.len()]));
+        }
+        add(&mut scenarios, "big", m, plans);
+    }
+
     // 4. HTTP/2: k concurrent streams on one connection (each with an HTTP/1.1 control)
     enum Job {
         H1(String, HandlerTaskMode, Vec<Plan>),
